@@ -343,7 +343,7 @@ fn run_hist(args: &Args) -> i32 {
         let odd_for = |par: &[u64]| -> Vec<i64> { par.iter().fold(vec![], |acc, &g| xor_sets(&acc, &gens[g as usize - 1])) };
         let lpsd: Vec<Value> = lps.iter().map(|&p| du(p)).collect();
         out.ev(json!({"op": "reset", "case": case, "n": dn(&ctx.n), "nd": ctx.n.to_string(), "maxlarge": du(maxlarge),
-                      "lps": lpsd, "lpsd": lps, "gens": gens, "model": {"cycles": h["cycles"], "partial": h["partial"], "doubles": h["doubles"]}}));
+                      "lps": lpsd, "lpsd": lps.iter().map(|p| p.to_string()).collect::<Vec<_>>(), "gens": gens, "model": {"cycles": h["cycles"], "partial": h["partial"], "doubles": h["doubles"]}}));
         let mut rs = RelationSet::new(ctx.n, ctx.fb.len(), maxlarge);
         let mut seen: Vec<(Value, Relation)> = vec![];
         let mut packed: Vec<Relation> = vec![];
@@ -520,7 +520,7 @@ fn run_pack(args: &Args) -> i32 {
                     "b7" => 128,
                     "b7hi" => 129,
                     "b14" => [16383u64, 16384][rng.gen_range(0..2)],
-                    "big" => (1u64 << 31) - 1,
+                    "big" => (1u64 << 29) - 1, // sums of a few of these stay below 2^31 (TLC integers)
                     _ => panic!("bad exponent shape"),
                 };
                 if k == 0 && p != -1 {
@@ -638,7 +638,7 @@ fn run_sieve(args: &Args) -> i32 {
         };
         let by_len = |lo: u64, hi: u64| rels.iter().filter(|(r, _)| r.cyclelen >= lo && r.cyclelen <= hi).count();
         out.ev(json!({"op": "reset", "case": case, "run": {"alg": format!("{:?}", alg), "bits": bits, "use_double": use_double,
-                      "threads": threads, "large_factor": large_factor, "nd": n.to_string(), "adds": nadd, "kinds": kinds, "published": rels.len(),
+                      "threads": threads, "large_factor": large_factor.unwrap_or(0), "nd": n.to_string(), "adds": nadd, "kinds": kinds, "published": rels.len(),
                       "len1": by_len(1, 1), "len2": by_len(2, 2), "len3plus": by_len(3, u64::MAX),
                       "cycles": last.0, "partial": last.1, "doubles": last.2, "invalid_raws": bad_raws.len(), "result": outcome}}));
         // inputs that are not valid relations (none expected): the spec decides (witness)
